@@ -19,7 +19,7 @@
 //	 "ret":wire|null,"herr":ERR,"prov":[MW],"cctor":[MW],"pctor":[MW],"padd":[MW],
 //	 "cstyle":STYLE,"pstyle":STYLE,"provstyle":STYLE,"poison":[MW],"calls":n,"proto":"binary"}
 //	{"op":"c16","kind":"scope","scope":"pkg.Scope","opname":"Op","vars":[str],"value":wire,"herr":ERR,
-//	 "errorable":bool,"pprov":[MW],"pctor":[MW],"sprov":[MW],"sctor":[MW],"shared":bool,
+//	 "errorable":bool,"ector":bool (New<Scope>ErrorableSubscriber instead of New<Scope>Subscriber),"pprov":[MW],"pctor":[MW],"sprov":[MW],"sctor":[MW],"shared":bool,
 //	 "pstyle":STYLE,"sstyle":STYLE,"provstyle":STYLE,"poison":[MW],"calls":n,"proto":"binary"}
 //	MW    = {"id":n,"pre":[RW],"post":[RW],"inplace":bool}
 //	RW    = {"k":"set","pos":i,"v":wire} | {"k":"seterr","pos":i,"err":ERR} | {"k":"hdr"} |
@@ -56,6 +56,12 @@ import (
 func init() {
 	labdriver.RegisterOp("c16", run)
 }
+
+// New<Scope>ErrorableSubscriber constructors (the lab registry lists New<Scope>Subscriber only);
+// tools/props/c16.py writes a file into the generated program that registers them here.
+var errorableCtors = map[string]interface{}{}
+
+func RegisterErrorable(scope string, ctor interface{}) { errorableCtors[scope] = ctor }
 
 type errSpec struct {
 	K     string      `json:"k"`
@@ -111,6 +117,7 @@ type request struct {
 	SProv     []mwSpec    `json:"sprov"`
 	SCtor     []mwSpec    `json:"sctor"`
 	Shared    bool        `json:"shared"`
+	ECtor     bool        `json:"ector"` // build the subscriber with New<Scope>ErrorableSubscriber
 }
 
 type exp struct {
@@ -793,11 +800,19 @@ func (e *exp) scope(q *request) interface{} {
 		sprovider = frugal.NewFScopeProvider(pubFactory{b}, subFactory{b}, pf, sprov...)
 	}
 	publisher := callVariadic(entry.NewPublisher, reflect.ValueOf(pprovider), pctor, q.PStyle)
-	subscriber := callVariadic(entry.NewSubscriber, reflect.ValueOf(sprovider), sctor, q.SStyle)
+	newSub := entry.NewSubscriber
+	if q.ECtor {
+		c, ok := errorableCtors[q.Scope]
+		if !ok {
+			return bad("no New...ErrorableSubscriber registered for %s", q.Scope)
+		}
+		newSub = c
+	}
+	subscriber := callVariadic(newSub, reflect.ValueOf(sprovider), sctor, q.SStyle)
 	if len(q.Poison) > 0 {
 		e.phase = "poison:"
 		other := frugal.NewFScopeProvider(pubFactory{b}, subFactory{b}, pf, poison...)
-		callVariadic(entry.NewSubscriber, reflect.ValueOf(other), sctor, q.SStyle)
+		callVariadic(newSub, reflect.ValueOf(other), sctor, q.SStyle)
 		callVariadic(entry.NewPublisher, reflect.ValueOf(other), pctor, q.PStyle)
 	}
 	// subscribe
